@@ -187,4 +187,15 @@ CHECKS = {
         "note": "Sphere bodies (make_sphere takes a centre only, so the mesh does not rotate with the scene) are compared under translations only. Flag flips of zero-area grazing contacts are ignored.",
         "technique": "bounded-exhaustive enumeration of body-pair scenes x transition relations and call histories on the real contact_forces",
     },
+    "C12": {
+        "text": ("Metamorphic transition relations on ~1.26e4 states (scene lattice with <= 1 deviation for all 100 type pairs + penetrating "
+                 "placements; every primitive pair of the 34 distance functions): argument swap, 8 proper rigid motions (cube rotations, "
+                 "generic and nearly aligned rotations, translations (1,2,3), (1e3,0,0), (-300,200,100)) applied to both arguments, and "
+                 "uniform scalings that keep the scene in the domain. Compared: gjk.gjk / original / Nesterov / primitives distances and "
+                 "the boolean tests (certified-margin scenes only), and the 34 distance functions, within the tolerance of the owning "
+                 "property scaled by the factor. ~1.1e6 executions."),
+        "design_ref": "DESIGN.md 5 C12",
+        "note": "Only scalar/boolean outputs are compared (closest points and directions are not unique on the lattice); MPR depth is excluded (not a function of the geometry when the origin ray passes through an edge). KF-C12 matched by exact state.",
+        "technique": "bounded-exhaustive enumeration of states x transformation set; original-vs-transformed relation on the real code (no reference values)",
+    },
 }
